@@ -65,6 +65,24 @@ Definition copy_pipeline (setup_opt exec_opt : Z) (write_jfif write_adobe : bool
   | Some (_, ms, _) => Some (copy_execute exec_opt write_jfif write_adobe ms)
   end.
 
+(* One decompressor used several times.  jcopy_markers_setup only ever ADDS save requests, and they live in the
+   marker reader, which survives jpeg_abort / jpeg_finish_decompress; tj3DecompressHeader adds a request for APP2
+   when TJPARAM_SAVEMARKERS is 2 or 4.  The limits in force for the current transform are therefore those of the
+   whole history, then the current jcopy_markers_setup. *)
+Inductive hstep := HSetup (opt : Z) | HTjHeader (save_markers : Z).
+Definition hstep_cfg (c : cfg) (s : hstep) : cfg :=
+  match s with
+  | HSetup o => copy_setup o c
+  | HTjHeader sm => if (sm =? 2) || (sm =? 4) then jpeg_save_markers c (JPEG_APP0 + 2) TJ_ICC_SAVE_LIMIT else c
+  end.
+Definition history_cfg (hist : list hstep) : cfg := fold_left hstep_cfg hist cfg_init.
+Definition copy_pipeline_from (c0 : cfg) (setup_opt exec_opt : Z) (write_jfif write_adobe : bool) (fuel : nat)
+  (src_after_soi : list Z) : option (list segment) :=
+  match read_app_markers fuel (copy_setup setup_opt c0) hinfo_init [] src_after_soi with
+  | None => None
+  | Some (_, ms, _) => Some (copy_execute exec_opt write_jfif write_adobe ms)
+  end.
+
 (* tj3Transform, per transform: jcopy_markers_execute(dinfo, cinfo, copyOption), then
      iccCopied = (copyOption is JCOPYOPT_ALL or JCOPYOPT_ICC) and the source marker list holds an APP2 marker
                  of at least TJ_ICC_COPIED_MINLEN bytes starting with tj_icc_copied_sig;
